@@ -228,14 +228,20 @@ def classify(spec) -> list:
             dead.add(b)
         if b in perm and a not in perm:
             dead.add(a)
+    changed = bool(dead)
+    while changed:
+        changed = False
+        for u, vs in succ.items():
+            if u not in dead and vs & dead:
+                dead.add(u)
+                changed = True
+    # LINKED selection choices whose numbers of (not pruned) options differ
+    for c in spec['constraints']:
+        if c['type'] == 'LINKED' and all(x in origin_of for x in c['choices']):
+            by_key = {c2['key']: c2 for c2 in spec['sel']}
+            if len({len([o for o in by_key[x]['options'] if o not in dead]) for x in c['choices']}) > 1:
+                flags.add('con_linked_unequal')
     if dead and spec['conn']:
-        changed = True
-        while changed:
-            changed = False
-            for u, vs in succ.items():
-                if u not in dead and vs & dead:
-                    dead.add(u)
-                    changed = True
         live_graph = {u: {v for v in vs if v not in dead} for u, vs in full.items() if u not in dead}
         alive = {s0 for s0 in spec['start'] if s0 not in dead}
         for s0 in list(alive):
